@@ -306,7 +306,8 @@ class C06(core.PropertyCheck):
     def model_request(self, case):
         if case["kind"] == "cut":
             index, inc, d = self._cut_pages(case)
-            return {"op": "c06.cut", "nodes": [to_model(inc.ast, case["start"], case["end"])]}
+            return {"op": "c06.cut", "nodes": [to_model(inc.ast, case["start"], case["end"])],
+                    "want_s": bool(case["start"]), "want_e": bool(case["end"])}
         # fileids: include argument "/f0.rst" -> slug f0 -> fileid f0.rst ; model keys are file names
         counter = [1]
 
@@ -321,22 +322,10 @@ class C06(core.PropertyCheck):
         return {"op": "c06.expand", "pages": pages, "page": "index.txt"}
 
     def expected_diags(self, case, model):
-        """diagnostic kinds the include handler must emit for a cut, derived from the model's answer"""
-        kinds = []
+        """diagnostic kinds the include handler must emit for a cut: the model's `cutDiags` (theorems cut_diags_sound / _complete)"""
         if not (case["start"] or case["end"]):
-            return kinds
-        if model["ok"]:
-            if case["start"] and not model["s"]:
-                kinds.append("nostart")
-            if case["end"] and not model["e"]:
-                kinds.append("noend")
-        else:
-            kinds.append("reversed")
-            if case["start"]:
-                kinds.append("nostart")
-            if case["end"]:
-                kinds.append("noend")
-        return kinds
+            return []
+        return list(model["diags"])
 
     @staticmethod
     def diag_kinds(diags):
@@ -470,6 +459,9 @@ class C06(core.PropertyCheck):
             if s is not None and e is not None and e < s and "reversed" not in ks:
                 return "reversed markers not reported" + which
         if s is not None and e is not None and e < s:
+            # both markers exist, in the wrong order: that is what is reported - not that either of them is missing
+            if "nostart" in kinds or "noend" in kinds:
+                return f"spurious diagnostics {kinds}: both markers exist (in the wrong order)"
             return None
         if any(k not in ("nostart", "noend") for k in kinds) or ("nostart" in kinds and starts and case["start"]) or ("noend" in kinds and ends and case["end"]):
             return f"spurious diagnostics {kinds}"
